@@ -111,7 +111,7 @@ def fwd_predicates(c: Ctx) -> list[tuple[Unit, ast.AST, str]]:
     'EventBus method that enqueues; the class has no alias of it that would escape the predicate')
 def c07_3(c: Ctx) -> None:
     preds = fwd_predicates(c)
-    c.floor(len(preds), 2, 'forwarding-handler predicates in _would_create_loop')
+    c.floor(len(preds), 1, 'forwarding-handler predicates in _would_create_loop')
     kinds = [
         ('bound dispatch of an EventBus', Rec(__self__=Rec(name='B', _cls='EventBus'), __name__='dispatch'), True),
         ('bound dispatch of a non-bus object', Rec(__self__=Rec(name='B', _cls='Other'), __name__='dispatch'), False),
